@@ -39,7 +39,7 @@ package ledger
 // Not covered: logic-sig / PQ signature fee contributions, large-program surcharges,
 // fee overflow near 2^64, keyreg 2-Algo eligibility fee, heartbeat discount.
 //
-// Mutants shown DETECTED (bin/mut, quick tier):
+// Mutants, all DETECTED by the quick tier (bin/mut ... --only):
 //   M1 eval.go proposerPayout: `available := sink.AvailableBalance(&eval.proto)` -> `available := sink.MicroAlgos`
 //   M2 eval.go TransactionGroup: SummarizeFees(txgroup[:1], ...) (first transaction only)
 //   M3 eval.go validateForPayouts: `payout.Raw > expectedPayout.Raw` -> `payout.Raw > expectedPayout.Raw+1`
